@@ -63,7 +63,24 @@ func (o *c20Origin) RoundTrip(req *http.Request) (*http.Response, error) {
 		Body: io.NopCloser(bytes.NewReader(body)), ContentLength: int64(len(body)), Request: req}, nil
 }
 
+// execC20Burst runs the burst; a suspected violation is only reported when a second, independent
+// run of the same case shows it again (a single stall of the whole process for several seconds -
+// a paused VM - could otherwise look like a caller that waited).
 func execC20Burst(t *testing.T, sc *world.Scenario) (*oracle.Result, string) {
+	r, problem := execC20BurstOnce(t, sc)
+	if problem != "" || len(r.Violations) == 0 {
+		return r, problem
+	}
+	r2, problem2 := execC20BurstOnce(t, sc)
+	if problem2 == "" && len(r2.Violations) > 0 {
+		return r2, ""
+	}
+	r.Violations = nil
+	r.Label("burst-suspicion-not-reproduced")
+	return r, ""
+}
+
+func execC20BurstOnce(t *testing.T, sc *world.Scenario) (*oracle.Result, string) {
 	r := oracle.NewResult()
 	var c c20BurstCase
 	if err := json.Unmarshal(sc.Case, &c); err != nil {
